@@ -25,7 +25,7 @@ EXACT_DEN = 1 << 14
 QUANT_DEN = 1 << 10
 
 
-def enc(x, *, quant_den=QUANT_DEN):
+def enc(x, *, quant_den=QUANT_DEN, exact_den=EXACT_DEN):
     """Observed float -> [num, den] for TLC (32-bit ints, no floats in JSON).
 
     nan -> [0,0], +-inf -> [+-1,0]; a finite value is sent exactly when it is a small
@@ -40,7 +40,7 @@ def enc(x, *, quant_den=QUANT_DEN):
     if abs(x) >= HUGE:
         return [HUGE if x > 0 else -HUGE, 1]
     fx = F(x)
-    if fx.denominator <= EXACT_DEN and abs(fx.numerator) < (1 << 28):
+    if fx.denominator <= exact_den and abs(fx.numerator) < (1 << 28):
         return [fx.numerator, fx.denominator]
     return q(F(round(fx * quant_den), quant_den))
 
